@@ -287,6 +287,33 @@ pub fn run(ctx: &Ctx) -> (Stats, Report) {
     });
     st.merge(s);
     st.exhaustive_sections.push("every second within +-2 days (+0/+-1 us)".into());
+    // dense leading field x boundary lower fields: every day count 0..=300,000 (then a geometric
+    // ladder up to the limit) with the time of day at its extremes, both signs
+    let mut day_counts: Vec<i128> = (0..=300_000i128).collect();
+    let mut d = 300_000f64;
+    while d < 100_000_000.0 {
+        d *= 1.002;
+        day_counts.push((d as i128).min(99_999_999));
+    }
+    let tods: [i128; 7] = [0, 1, US_PER_SEC, pools::hms(12, 0, 0, 0), pools::hms(23, 59, 59, 0), pools::hms(23, 59, 59, 500_000), pools::hms(23, 59, 59, 999_999)];
+    let dref = &day_counts;
+    let s = par_sweep(day_counts.len() as u64, 1 << 11, |range, st| {
+        for k in range {
+            for t in tods {
+                let v = dref[k as usize] * US_PER_DAY + t;
+                for x in [v, -v] {
+                    st.evaluations += 1;
+                    st.nontrivial_enum += (x != 0 && (x < 0 || t != 0)) as u64;
+                    if let Err(m) = check_dt(x as i64) {
+                        st.fail(k, Case::new(P, "dt", vec![x], vec![]), m);
+                        return;
+                    }
+                }
+            }
+        }
+    });
+    st.merge(s);
+    st.exhaustive_sections.push("every day count 0..=300,000 x 7 boundary times of day x both signs".into());
     let s = par_sweep(vals.len() as u64, 1 << 14, |range, st| {
         for k in range {
             let v = vals[k as usize];
